@@ -231,7 +231,7 @@ class LowLevel:
         async def go() -> t.Any:
             reader = taps.CountingReader()
             client = AsyncRpcClient(reader, ChunkWriter(conn, reader, plan))
-            return await asyncio.wait_for(self.steps_async(client), 2.0)
+            return await asyncio.wait_for(self.steps_async(client), 20.0)
 
         return _LOOP.run_until_complete(go())
 
@@ -262,7 +262,7 @@ class ApiLevel:
         with ChunkNet(dc, plan):
             if flavour == "sync":
                 return dpapi_ng.ncrypt_unprotect_secret(blob, **kw)
-            return _LOOP.run_until_complete(asyncio.wait_for(dpapi_ng.async_ncrypt_unprotect_secret(blob, **kw), 5.0))
+            return _LOOP.run_until_complete(asyncio.wait_for(dpapi_ng.async_ncrypt_unprotect_secret(blob, **kw), 40.0))
 
 
 _LOOP: asyncio.AbstractEventLoop = None  # type: ignore
@@ -270,7 +270,7 @@ _LOOP: asyncio.AbstractEventLoop = None  # type: ignore
 
 def _outcome(fn: t.Callable[[], t.Any]) -> tuple[str, str]:
     try:
-        with taps.time_limit(20):
+        with taps.time_limit(60):
             v = fn()
         return "value", repr(v)
     except (Spin, taps.Hang):
